@@ -137,6 +137,28 @@ Definition news_spec (theirs ours : list (N * N)) : N :=
                                      | Some t => t <? snd h
                                      | None => true
                                      end) theirs)).
+(** the encode clause: without a limit every author is kept; under a limit the encoding does not
+    exceed it and holds a newest-first prefix that is maximal (one more would not fit) *)
+Definition encode_ok (heads : list (N * N)) (limit : option N) (items : list (N * N)) (len : N) : bool :=
+  let sorted := newest_first heads in
+  match limit with
+  | None => list_eqb nn_eqb items sorted
+  | Some L =>
+      (len <=? N.max L 1)
+      && list_eqb nn_eqb items (firstn (length items) sorted)
+      && match nth_error sorted (length items) with
+         | Some nxt => L <? items_size (items ++ [nxt])
+         | None => true
+         end
+  end.
+Fixpoint c13_encodes (h : list (sop * sres)) : bool :=
+  match h with
+  | [] => true
+  | (SHeadsEncode heads limit, RHeadItems items len) :: rest => encode_ok heads limit items len && c13_encodes rest
+  | (SHeadsEncode _ _, _) :: _ => false
+  | _ :: rest => c13_encodes rest
+  end.
+
 (** adjacent observation pairs: (GetAll ns ; Heads ns) and (Heads ns ; HasNews ns) *)
 Fixpoint c13_pairs (h : list (sop * sres)) : bool :=
   match h with
@@ -223,7 +245,7 @@ Fixpoint scan (ok : track -> sop -> sres -> bool) (t : track) (h : list (sop * s
 Definition spec_ok (c : case) : bool :=
   let h := c_hist c in
   if c_prop c =? 7 then scan c07_ok tr0 h
-  else if c_prop c =? 13 then c13_pairs h
+  else if c_prop c =? 13 then c13_pairs h && c13_encodes h
   else if c_prop c =? 15 then scan c15_ok tr0 h
   else if c_prop c =? 16 then c16_scan (4 * length (c_ids c) + 2) tr0 h []
   else if c_prop c =? 17 then scan c17_ok tr0 h
